@@ -140,8 +140,11 @@ func init() {
 	p("vAdvance", func(fr *frame, a []value) value {
 		i := fr.i
 		i.ps.clock = i.binop(token.ADD, types.Typ[types.Int64], i.ps.clock, fr.conv(types.Typ[types.Int64], types.Typ[types.Int], a[0]))
+		i.ps.clockEpoch++
+		i.runSleepers()
 		return nil
 	})
+	p("vAdvanceReal", prims["vAdvance"])
 	p("vNow", func(fr *frame, a []value) value { return fr.i.ps.clock })
 	p("vPermuteMaps", func(fr *frame, a []value) value { fr.i.ps.permute = a[0].(bool); return nil })
 	p("vPoolChoice", func(fr *frame, a []value) value { fr.i.ps.poolChoice = a[0].(bool); return nil })
